@@ -13,7 +13,12 @@ Instantiations (tools/instantiate.py):
 Conventions.  An `Epoch` enters as its JDE (a number).  An `Angle` is its `_deg` field (a number);
 the few Angle methods used by Moon.py are mirrored at the top (names local to `MoonM`).
 The finders compute `year = y + doy / num_days_year` from `epoch.get_date()`, `Epoch.is_leap`,
-`Epoch.get_doy` (Epoch.py, property C16): that value is an INPUT of the finder models here.
+`Epoch.get_doy`: that is `finder_year` of templates/MoonYear.lean (built on the calendar models of
+EpochCore / EpochCal).  `moon_phase year target` etc. take the fractional year; the functions
+`*_jde` at the end compose them with `finder_year`, so the whole chain starts from the query JDE
+(a `Float` in the F model, a rational in the R model: every binary64 epoch is a rational).
+`nutation_longitude` / `true_obliquity` / the coarse Sun are the models of templates/Vsop.lean and
+SunEarth.lean (namespace `Helio`): `apparent_*_jde`, `position_bright_limb_jde`.
 `Epoch(jde)` (the constructor the finders end with) re-derives the JDE through
 `get_full_date` / `_compute_jde`; the F model does the same (`epoch_of_jde`), the R model takes
 it as the identity (the exact round trip is property C02).
@@ -23,7 +28,12 @@ import Pymeeus.Pre@K@
 import Pymeeus.Gen.MoonData
 --@only F
 import Pymeeus.Gen.F.EpochCore
+import Pymeeus.Gen.F.MoonYear
 --@end
+--@only R
+import Pymeeus.Gen.Q.MoonYear
+--@end
+import Pymeeus.Gen.@K@.SunEarth
 namespace Pymeeus.Gen@K@
 namespace MoonM
 open Pymeeus Pymeeus.P@K@ Pymeeus.Moon Pymeeus.MoonData
@@ -608,6 +618,69 @@ def moon_maximum_declination (year : Num) (target : String) : PyRes (Num × Num)
   | .ok (j, d) => match epoch_of_jde j with
     | .error e => .error e
     | .ok j' => .ok (j', d)
+
+/-! ### the whole chain from the query JDE -/
+--@only F
+/-- type of a query JDE -/
+abbrev QNum := Float
+/-- the finders' fractional year (templates/MoonYear.lean) -/
+def fyear (jde : QNum) : PyRes Float := finder_year jde
+--@end
+--@only R
+/-- type of a query JDE: a rational (every binary64 epoch is one) -/
+abbrev QNum := ℚ
+/-- the finders' fractional year: the exact (Rat) model of templates/MoonYear.lean, cast to ℝ -/
+def fyear (jde : QNum) : PyRes ℝ :=
+  match Pymeeus.GenQ.MoonM.finder_year jde with
+  | .error e => .error e
+  | .ok y => .ok ((y : ℚ) : ℝ)
+--@end
+
+/-- `Moon.moon_phase(epoch, target).jde()` from the query JDE: target test, then the date
+    computations (which can raise), then the series. -/
+def moon_phase_jde (jde : QNum) (target : String) : PyRes Num :=
+  if !phase_target_ok target then .error .valueError else
+  match fyear jde with
+  | .error e => .error e
+  | .ok year => moon_phase year target
+
+/-- `Moon.moon_perigee_apogee(epoch, target)` from the query JDE -/
+def moon_perigee_apogee_jde (jde : QNum) (target : String) : PyRes (Num × Num) :=
+  if !apsis_target_ok target then .error .valueError else
+  match fyear jde with
+  | .error e => .error e
+  | .ok year => moon_perigee_apogee year target
+
+/-- `Moon.moon_passage_nodes(epoch, target)` from the query JDE -/
+def moon_passage_nodes_jde (jde : QNum) (target : String) : PyRes Num :=
+  if !nodes_target_ok target then .error .valueError else
+  match fyear jde with
+  | .error e => .error e
+  | .ok year => moon_passage_nodes year target
+
+/-- `Moon.moon_maximum_declination(epoch, target)` from the query JDE -/
+def moon_maximum_declination_jde (jde : QNum) (target : String) : PyRes (Num × Num) :=
+  if !decl_target_ok target then .error .valueError else
+  match fyear jde with
+  | .error e => .error e
+  | .ok year => moon_maximum_declination year target
+
+/-- `Moon.apparent_ecliptical_pos(epoch)`: `deltaPsi = nutation_longitude(epoch)` -/
+def apparent_ecliptical_pos_jde (jde : Num) : PyRes (Num × Num × Num × Num) :=
+  apparent_ecliptical_pos jde (Helio.nutation_longitude jde)
+
+/-- `Moon.apparent_equatorial_pos(epoch)`: `epsilon = true_obliquity(epoch)` -/
+def apparent_equatorial_pos_jde (jde : Num) : PyRes (Num × Num × Num × Num) :=
+  apparent_equatorial_pos jde (Helio.nutation_longitude jde) (Helio.true_obliquity jde)
+
+/-- `Moon.position_bright_limb(epoch)`:
+    `a0, d0, r0 = Sun.apparent_rightascension_declination_coarse(epoch)`;
+    `a, d, r, ppi = Moon.apparent_equatorial_pos(epoch)` -/
+def position_bright_limb_jde (jde : Num) : PyRes Num :=
+  let s := Helio.apparent_rightascension_declination_coarse jde
+  match apparent_equatorial_pos_jde jde with
+  | .error e => .error e
+  | .ok (a, d, _, _) => .ok (position_bright_limb s.1 s.2.1 a d)
 
 end MoonM
 end Pymeeus.Gen@K@
